@@ -75,6 +75,7 @@ func (r *runCtx) runDownloader(sc *scenario, L, S, T uint64, db dbm.DB) {
 		for atomic.LoadInt32(&s.stop) == 0 {
 			for _, sl := range r.c.w.Clock.Sleepers() {
 				if sl.D <= 5*time.Second {
+					r.c.w.Clock.Advance(int64(sl.D / time.Second)) // the sleeper's time passes (the wait for manifests measures it)
 					r.c.w.Clock.Release(sl)
 				}
 			}
